@@ -12,7 +12,7 @@
    The runtime part - that the real library has no data race and returns the same
    results concurrently - is OBSERVED with the Go race detector (Check/C16.v, harness
    c16.go) and named as such. *)
-From Errdef Require Import Base.Str Base.Outcome Model.Core Model.Prog Model.Conc Gen.Effects
+From Errdef Require Import Base.Str Base.Outcome Model.Core Model.Prog Model.Conc Gen.Effects Spec.EffectsAudit
   Check.C16 Proofs.C16Proofs.
 Local Open Scope list_scope.
 
